@@ -751,8 +751,8 @@ func (am *AllocatorManager) getDCLocationSuffixMapFromEtcd() (map[string]int32, 
 		if err != nil {
 			return nil, err
 		}
-		splittedKey := strings.Split(string(kv.Key), "/")
-		dcLocation := splittedKey[len(splittedKey)-1]
+		// A dc-location name may contain '/': the name is everything behind the prefix, not the last path segment.
+		dcLocation := strings.TrimPrefix(string(kv.Key), am.GetLocalTSOSuffixPathPrefix()+"/")
 		dcLocationSuffix[dcLocation] = int32(suffix)
 	}
 	return dcLocationSuffix, nil
